@@ -11,7 +11,7 @@ from vlib.cassettes import open_box
 from vlib.programs import (gen_program, Built, World, describe, count_features, playback_function_for, edit_program, clone,
                            expected_outputs)
 from vlib.spies import SpyCassette
-from vlib.values import teq, in_domain
+from vlib.values import recording_in_domain, teq, in_domain
 
 PROPERTY = 'C03'
 LEVEL = 'exploration'
@@ -99,8 +99,7 @@ def run_case(ctx, case_seed):
             ctx.violation('fault-free program was not saved exactly once', w)
             return
         ro = spy.recordings[saves[0][1]]
-        if not (in_domain({'recording_data': ro.recording_data, 'recording_metadata': ro.recording_metadata}) and
-                in_domain(dict(ro.recording_data, _metadata=ro.recording_metadata))):
+        if not (recording_in_domain(ro.recording_data, ro.recording_metadata)):
             ctx.count('recordings_out_of_serializer_domain')
             return
         rec2 = TapeRecorder(box.reader())
